@@ -24,21 +24,39 @@ CLAIMED = {
  "C07": ("extreme-input PBT over every public access/query entry point, in builds with and without overflow checks and in the xen build; panics caught per case, crashes/hangs attributed by worker isolation and watchdog",
          "no generated call with addresses/lengths/counts from the full 64-bit range panics, aborts, overflows in checked builds or hangs",
          "documented program-logic panics excluded by construction (listed in evidence assumptions); hang = no result within the watchdog, reproduced from the recorded tape", "4 C07"),
+ "C08": ("schedule-as-input PBT: every atomic operation of the bitmap is a yield point (hook H2); a controller picks which thread advances from the tape; all interleavings of small scopes enumerated depth-first",
+         "for generated concurrent programs and generated (or exhaustively enumerated) sequentially consistent schedules at atomic-operation granularity, no mark is lost and no unmarked page is ever reported",
+         "only SC interleavings of the instrumented atomic operations; weak-memory reorderings out of reach", "4 C08"),
  "C09": ("model-based stateful PBT: BTreeSet model compared over the whole index range after every step",
          "histories of all public bitmap operations incl. enlarge, clone and nested slices behave like a set of page numbers",
          "BTreeSet model; wrapping slice offsets are don't-care by documentation", "4 C09"),
  "C10": ("model-based stateful PBT over a growing list of maps; every earlier map re-inspected after every step",
          "construction, insertion and removal fail with the documented error or return a sorted disjoint map equal to the old set +- one region; earlier maps, clones and removed-region handles keep reaching the same tagged memory",
          "sorted-list model; base+size == 2^64 is a don't-care", "4 C10"),
+ "C11": ("model-based stateful PBT over several handles (generation model, Weak liveness) + generated multi-threaded reader/updater programs with a schedule-independent oracle",
+         "sequential histories over up to 4 handles show that a snapshot keeps exactly its generation while replacements (incl. same-layout ones) happen, every handle sees the newest map after replace returns, and old generations die exactly when unreachable; threaded stress never observes a mixture, a step backwards, or a lost update",
+         "interleavings inside arc-swap/Mutex are sampled by stress only (no hook into external crates)", "4 C11"),
+ "C12": ("stateful PBT against an owner-count model judged by an interposed mmap/munmap log; metamorphic compile-fail program pairs generated from a grammar and compiled against the current crate",
+         "for generated create/build/insert/remove/clone/snapshot/replace/drop histories every mapping is unmapped exactly once when its last owner goes (never for raw regions), no leak at the end; every (parent, accessor, escape pattern) program is rejected by the borrow checker while its control twin compiles",
+         "interposed C symbols mmap/munmap in the harness binary; client programs limited to the grammar", "4 C12"),
  "C13": ("differential PBT: identical call sequences on the volatile adapter and on its std::io counterpart",
          "for every adapter the crate provides, counts, bytes landed, stream positions/sink contents and error kinds agree with std after every call of a generated sequence; canaries show the buffer bounds are respected",
          "std::io adapters as reference; state after a failed exact call not compared (unspecified by std)", "4 C13"),
  "C14": ("fault-script PBT: generated per-call behaviours of a harness stream, judged by conservation invariants over the stream log and memory",
          "under generated scripts of full/short/zero/interrupted/hard-error behaviours, interruptions are retried, errors end and are reported, every delivered byte is stored once in order, exact forms succeed iff the full count moved",
          "harness-implemented stream with position-determined content; kernel EINTR not injected", "4 C14"),
+ "C15": ("decision-table PBT over construction requests + exhaustive enumeration of Xen flag words; interposed mmap/munmap log; pread/pwrite coherence",
+         "construction fails with the documented error exactly for unsafe/inconsistent requests (several conditions: any of their errors), leaves nothing mapped on failure, and otherwise reports exactly what was asked; shared file-backed regions are coherent with the file in both directions; every Xen mapping-type flag word is enumerated over emulated devices",
+         "requests the OS may refuse accept Ok or Err(Mmap); base+size == 2^64 is a don't-care; Xen devices emulated through hook H3", "4 C15"),
  "C16": ("stateful PBT with a full bitmap snapshot before/after every operation",
          "newly dirty pages are confined to the pages overlapping what the operation wrote; read-type and rejected operations mark nothing; only the failing descriptor read may mark its whole target",
          "written ranges computed from documented transfer semantics (themselves checked by C03/C04)", "4 C16"),
+ "C17": ("PBT of guard extent vs accessor extent (std) + model-based stateful PBT over emulated Xen regions (hook H3) with the device log as oracle",
+         "pointer guards of slices, typed refs and element arrays report the bytes covered and the first byte; on emulated on-demand grant regions every accessor kind works inside temporary windows (a missing/too small window faults and is attributed), data equals the model, no window is live after an operation",
+         "Xen devices emulated: grant reference r = page r of a memfd; worker isolation turns faults into violations", "4 C17"),
+ "C18": ("exhaustive enumeration of (zero-length entry point x layer x address class x container), in three builds incl. emulated Xen regions",
+         "every zero-length form of the byte-access interface returns Ok(0)/Ok(()) at every layer and address class the statement covers, never panics, changes no byte, marks nothing dirty and leaves no Xen window mapped; zero-sized element copies do the same",
+         "stream forms and zero-sized copies are only required to succeed at addresses valid for a non-empty access", "4 C18"),
  "C19": ("exhaustive boundary cross product + random pairs against 128-bit integer arithmetic",
          "every checked/overflowing/align/mask/compare operation agrees with exact i128 arithmetic on the full cross product of a 206-value boundary set, all 64 alignments, and random operands",
          "i128 oracle", "4 C19"),
